@@ -2,6 +2,7 @@ import SFV.Proofs.StatesFock
 import SFV.Proofs.StatesGauss
 import SFV.Proofs.StatesFock2
 import SFV.Proofs.StatesGauss2
+import SFV.Proofs.StatesGauss3
 
 /-!
 # C16 — the observables of a state object are consistent and answer for exactly the requested modes
@@ -322,6 +323,28 @@ theorem bosonic_quad_mix {K : Type} [CommRing K] (c s : K) (comps : List (K × G
     (bosonicQuad c s comps).1 = wsum (comps.map fun p => p.1 * (quad1 c s p.2).1) :=
   bosonicQuad_mix c s comps
 
+/-! ## Gaussian `dm()` / `reduced_dm`: the index layout of the state-vector branch -/
+
+/-- **the axis list `[k for m in range(N) for k in (m, m + N)]` turns `|ψ⟩⟨ψ|` (ket axes first, bra axes last) into the documented
+layout `ρ[i₀, j₀, i₁, j₁, …]`, for every number of modes** -/
+theorem gaussian_dm_layout {K : Type} [Mul K] (k : Nat) (cj : K → K) (ψ : Tens K) (idx : Idx) :
+    trList (dmAxes k) (outerKet k cj ψ) idx = dmSpec k cj ψ idx :=
+  dm_layout k cj ψ idx
+
+/-- **Gaussian `reduced_dm(modes)` / `dm()`**: for an ascending in-range list the full list of a pure state gives `|ψ⟩⟨ψ|` in the
+documented layout, everything else thewalrus' density matrix of the reduced `(μ, V)` as it comes -/
+theorem gaussian_reduced_dm {K : Type} [Mul K] (cj : K → K) (n : Nat) (modes : List Nat) (isPure : Bool) (ψ T : Tens K)
+    (hs : modes.Pairwise (· < ·)) (hr : ∀ m ∈ modes, m < n) :
+    ∃ R, gaussReducedDm cj n modes isPure ψ T = .ok (modes.length, R) ∧
+      ∀ idx, R idx = (if isPure ∧ modes.length = n then dmSpec modes.length cj ψ idx else T idx) :=
+  gaussReducedDm_ok cj n modes isPure ψ T hs hr
+
+/-- the "evens + odds" idiom (`[0, 2, 4, …, 1, 3, 5, …]`, right for `all_fock_probs`) is the inverse permutation: equal to the
+required list for one and two modes, different from three modes on (seeded change C16-a1) -/
+theorem gaussian_dm_evens_odds_counterexample (k : Nat) (hk : 3 ≤ k) :
+    ((List.range k).map (2 * ·) ++ (List.range k).map (2 * · + 1)) ≠ dmAxes k :=
+  evensOdds_ne_dmAxes k hk
+
 /-! ## non-vacuity: the hypotheses are met by concrete non-trivial objects (3–4 modes, permuted selections) -/
 
 example : ([0, 2] : List Nat).Pairwise (· < ·) ∧ ∀ m ∈ ([0, 2] : List Nat), m < 3 := by decide
@@ -349,6 +372,7 @@ example : WellFormedMap [some 0, none, some 1, some 2] := by
 /-- the string of `reduced_dm([0, 2])` on three modes: `ab ee cd -> abcd` -/
 example : indList 3 [0, 2] = [(0, 1), (4, 4), (2, 3)] := by decide
 example : IsSorted [2, 0, 1] [0, 1, 2] := ⟨by decide, by decide⟩
+example : dmAxes 3 = [0, 3, 1, 4, 2, 5] ∧ dmAxes 2 = [0, 2, 1, 3] := by decide
 example : IsArgsort [5, 1, 3] [1, 2, 0] := ⟨by decide, by decide⟩
 example : ([0, 2, 1] : List Nat).Perm [2, 1, 0] := by decide
 example : samplesExpectation [[2, 0, 1], [1, 3, 2]] [0, 2] = (4, 2) := by decide
